@@ -238,7 +238,11 @@ void SQuIDS::Set_xrange(double xi, double xf, std::string type){
   if(type=="linear" || type=="Linear" || type=="lin" || type=="Lin"){
     for(unsigned int e1 = 0; e1 < nx; e1++){
       x[e1]=xi+(xf-xi)*static_cast<double>(e1)/static_cast<double>(nx-1);
+      if(x[e1]>xf) //rounding must not carry a node beyond the requested end
+        x[e1]=xf;
     }
+    //rounding can also leave the last node a few ulps short of xf
+    x[nx-1]=xf;
   }else if(type=="log" || type=="Log"){
     double xmin_log,xmax_log;
     if (xi < 1.0e-10 ){
@@ -250,8 +254,12 @@ void SQuIDS::Set_xrange(double xi, double xf, std::string type){
 
     for(unsigned int e1 = 0; e1 < nx; e1++){
       double X=xmin_log+(xmax_log-xmin_log)*static_cast<double>(e1)/static_cast<double>(nx-1);
-      x[e1]=exp(X);
+      //exp(log(x)) is in general not x: keep every node inside the requested range
+      x[e1]=std::min(std::max(exp(X),xi),xf);
     }
+    //and make the grid span exactly that range
+    x[0]=xi;
+    x[nx-1]=xf;
   }else{
     throw std::runtime_error("SQUIDS::Set_xrange : Not well deffined X range");
   }
